@@ -50,10 +50,11 @@ def main(argv):
     if argv:
         jobs = [j for j in jobs if j[0] in argv or any(a in j[1] for a in argv)]
     bad = 0
-    for pid, p in jobs:
-        res = run_one(pid, p, tier)
-        print("%s %-45s %s" % (pid, os.path.relpath(p, HERE), res), flush=True)
-        bad += not res.startswith("CAUGHT")
+    from concurrent.futures import ThreadPoolExecutor
+    with ThreadPoolExecutor(max_workers=int(os.environ.get("SELFTEST_JOBS", "1"))) as ex:
+        for (pid, p), res in zip(jobs, ex.map(lambda j: run_one(j[0], j[1], tier), jobs)):
+            print("%s %-45s %s" % (pid, os.path.relpath(p, HERE), res), flush=True)
+            bad += not res.startswith("CAUGHT")
     return 1 if bad else 0
 
 
